@@ -1127,10 +1127,16 @@ class Gen:
       if k.get("p_tmp_loopname") and rng.random() < k["p_tmp_loopname"]:
         stmts = self.share_loop_name(stmts)
       blk = {"name": f"up_{bi}", "kind": "comb", "stmts": stmts}
-      if len(stmts) == 1 and stmts[0][0] == "=" and "." not in stmts[0][1]["path"] and not stmts[0][1]["steps"] \
-         and expr_refs(stmts[0][2], []) and rng.random() < k.get("p_lambda", 0):
+      def lambda_target(r):
+        # a whole signal / list element, or (p_lambda_part) ONE field, bit or slice of it:  s.out[0:4] //= lambda: ...
+        if "." in r["path"] or r.get("sym"): return False
+        if not r["steps"]: return True
+        return bool(k.get("p_lambda_part")) and len(r["steps"]) == 1 and (r["steps"][0][0] in ("f", "i") or (r["steps"][0][0] == "s" and len(r["steps"][0]) == 3))
+      if len(stmts) == 1 and stmts[0][0] == "=" and len(stmts[0]) == 3 and lambda_target(stmts[0][1]) \
+         and expr_refs(stmts[0][2], []) and rng.random() < (k.get("p_lambda", 0) if not stmts[0][1]["steps"] else k["p_lambda_part"]):
         blk["lambda"] = True
-        blk["name"] = "_lambda__s_" + stmts[0][1]["path"].replace("[", "_").replace("]", "_")
+        blk["name"] = "_lambda__" + ref_text(stmts[0][1]).replace(".", "_").replace("[", "_").replace("]", "_").replace(":", "_")
+        if stmts[0][1]["steps"]: self.design.setdefault("stats", {}).setdefault("lambda_on_part_of_signal", 0); self.design["stats"]["lambda_on_part_of_signal"] += 1
       cls["blocks"].append(blk)
     # ff blocks
     rng.shuffle(ff_targets)
